@@ -38,6 +38,7 @@ type contentPhase struct {
 type contentWorkload struct {
 	Tokenizer string         `json:"tokenizer"`
 	TokIdx    int            `json:"tok_idx"`
+	TokYield  int            `json:"tok_yield,omitempty"` // >0: the configured tokenizer is a scheduling point every n-th call
 	Phases    []contentPhase `json:"phases"`
 	NRows     int            `json:"n_rows"`
 	External  []int          `json:"external_rows,omitempty"` // rows written by the external writer (no filters)
@@ -191,6 +192,7 @@ func genContentWorkload(w *Tape) *contentWorkload {
 	wl.QClients = w.Range(1, 3)
 	wl.QConc = []int{1, 2, 3, 8}[w.Draw(4)]
 	wl.RealMeta = w.Draw(4) == 0
+	wl.TokYield = []int{0, 0, 1, 3, 7}[w.Draw(5)]
 	if !wl.RealMeta {
 		wl.MetaBug = MetaBuggify{IgnorePrefilter: w.Draw(3) == 0, FilterBlocks: w.Draw(2) == 0, ReverseBlocks: w.Draw(3) == 0, ReverseFiles: w.Draw(3) == 0, RotateFiles: w.Draw(4)}
 	}
@@ -415,6 +417,19 @@ func RunContent(r *Run, variant string) {
 	st := &contentState{r: r, wl: wl, byID: map[string]*RowInfo{}, fpRates: map[float64]bool{}, checked: map[string]bool{}, external: map[string]bool{},
 		writerFP: map[string]float64{}, acks: map[string]error{}}
 	st.tok = tokenizerByIndex(wl.TokIdx)
+	if wl.TokYield > 0 {
+		// The tokenizer is caller-supplied code and may block or be descheduled: make it a
+		// scheduling point (in fine mode), so that block scans of one query interleave in the
+		// middle of matching a row. The oracle side keeps calling the plain function.
+		base, calls, stride := st.tok.Fn, 0, wl.TokYield
+		st.tok.Fn = func(text string) []string {
+			calls++
+			if calls%stride == 0 {
+				simrt.Yield("user.tokenizer")
+			}
+			return base(text)
+		}
+	}
 	total := wl.NRows + len(wl.External)
 	for i := 0; i < total; i++ {
 		id := fmt.Sprintf("r%03d", i)
